@@ -620,6 +620,7 @@ type c31Gen struct {
 	litCap   int // cap on literal byte constants
 	insLimit int
 	approve  []byte // small approving program for inner app creation
+	strict   bool   // only emit what the assembler accepts (C33): valid field names, resolvable labels, no hostile immediates
 }
 
 func c31NewGen(s c31Src, v uint64, mode RunMode, nGroup int) *c31Gen {
@@ -782,10 +783,17 @@ func (g *c31Gen) pushArg(st StackType) {
 }
 
 func (g *c31Gen) fieldImm(grp *FieldGroup) byte {
-	if c31Pct(g.s, 94) {
+	if g.strict || c31Pct(g.s, 94) {
 		vf := c31ValidFields(grp, g.v)
 		if len(vf) > 0 {
 			return vf[g.s.N(len(vf))]
+		}
+	}
+	if g.strict { // no field of this group exists at this version: any named one (the assembler will object, rarely)
+		for i, n := range grp.Names {
+			if n != "" {
+				return byte(i)
+			}
 		}
 	}
 	if c31Pct(g.s, 50) {
@@ -899,17 +907,26 @@ func (g *c31Gen) genImms(sp *OpSpec, insIdx int) []c31Imm {
 		}
 		imms[k] = out
 	}
+	if g.strict && sp.Name == "substring" && len(imms) == 2 && imms[0].b > imms[1].b {
+		imms[0].b, imms[1].b = imms[1].b, imms[0].b // the assembler rejects end < start
+	}
 	return imms
 }
 
 // labelTarget returns a back target (an existing instruction) or registers a pending forward reference.
 func (g *c31Gen) labelTarget(insIdx, imm, lab int) int {
 	s := g.s
-	if g.v >= backBranchEnabledVersion && c31Pct(s, 12) && insIdx > 2 {
-		return 2 + s.N(insIdx-1) // backward (or self)
-	}
-	if g.v < backBranchEnabledVersion && c31Pct(s, 3) && insIdx > 2 {
-		return 2 + s.N(insIdx-1)
+	if g.strict {
+		if g.v >= backBranchEnabledVersion && c31Pct(s, 15) && insIdx > 2 {
+			return 2 + s.N(insIdx-2) // strictly backward: a varint branch cannot name itself
+		}
+	} else {
+		if g.v >= backBranchEnabledVersion && c31Pct(s, 12) && insIdx > 2 {
+			return 2 + s.N(insIdx-1) // backward (or self)
+		}
+		if g.v < backBranchEnabledVersion && c31Pct(s, 3) && insIdx > 2 {
+			return 2 + s.N(insIdx-1)
+		}
 	}
 	g.pending = append(g.pending, c31Pending{ins: insIdx, imm: imm, lab: lab, groups: s.N(4)})
 	return -1
@@ -1113,7 +1130,7 @@ func (g *c31Gen) special(sp *OpSpec) bool {
 		}
 		if name == "intc" {
 			idx := s.N(len(g.intc))
-			if c31Pct(s, 5) {
+			if !g.strict && c31Pct(s, 5) {
 				idx = len(g.intc) + s.N(3)
 			}
 			g.emit(sp, c31B(byte(idx)))
@@ -1130,7 +1147,7 @@ func (g *c31Gen) special(sp *OpSpec) bool {
 		}
 		if name == "bytec" {
 			idx := s.N(len(g.bytec))
-			if c31Pct(s, 5) {
+			if !g.strict && c31Pct(s, 5) {
 				idx = len(g.bytec) + s.N(3)
 			}
 			g.emit(sp, c31B(byte(idx)))
@@ -1141,7 +1158,7 @@ func (g *c31Gen) special(sp *OpSpec) bool {
 		return true
 	case name == "intcblock" || name == "bytecblock":
 		// a second constant block mid-program replaces the pool the generator relies on: rare
-		if c31Pct(s, 85) {
+		if g.strict || c31Pct(s, 85) {
 			g.generic(1)
 			return true
 		}
@@ -1410,7 +1427,7 @@ func (g *c31Gen) tmplSub(depth int) {
 func (g *c31Gen) tmplLoop() {
 	s := g.s
 	bnz := g.spec("bnz")
-	if bnz == nil {
+	if bnz == nil || (g.strict && g.v < backBranchEnabledVersion) {
 		g.generic(3)
 		return
 	}
@@ -1680,6 +1697,23 @@ func (g *c31Gen) finishProgram() []c31Ins {
 		g.resolve(p, len(g.ins))
 	}
 	g.pending = nil
+	if g.strict && (g.v <= 1 || c31Pct(g.s, 50)) {
+		// v1 cannot branch to the end of the program; otherwise keep end-of-program labels half of the time
+		for i := range g.ins {
+			for k := range g.ins[i].imms {
+				im := &g.ins[i].imms[k]
+				if im.tgt > len(g.ins) {
+					im.tgt = len(g.ins)
+				}
+				for j := range im.tgts {
+					if im.tgts[j] > len(g.ins) {
+						im.tgts[j] = len(g.ins)
+					}
+				}
+			}
+		}
+		g.pushInt(1)
+	}
 	if len(g.intc) > 0 {
 		g.ins[0] = c31Ins{spec: g.spec("intcblock"), imms: []c31Imm{{kind: immInts, us: g.intc}}}
 	}
